@@ -8,6 +8,7 @@ import (
 	"math/rand"
 	"net"
 	"sort"
+	"strings"
 	"sync"
 	"sync/atomic"
 	"time"
@@ -496,6 +497,16 @@ func (c *Cluster) Dialer() func(ctx context.Context, network, addr string) (net.
 		c.dials[addr]++
 		n := c.dials[addr]
 		s := c.servers[addr]
+		if s == nil {
+			// name resolution: "host.:port" (absolute form) and "host:port" are the same server
+			if h, p, err := net.SplitHostPort(addr); err == nil {
+				if strings.HasSuffix(h, ".") {
+					s = c.servers[net.JoinHostPort(strings.TrimSuffix(h, "."), p)]
+				} else {
+					s = c.servers[net.JoinHostPort(h+".", p)]
+				}
+			}
+		}
 		fault, delay, wrap := c.DialFault, c.DialDelay, c.WrapConn
 		c.mu.Unlock()
 		c.Log.Add(Event{Kind: "dial", Server: addr, N: int64(n)})
